@@ -404,6 +404,36 @@ pub struct Row {
     pub alt: String,
     pub dist: String,
     pub msgs: String,
+    /// reference rows only: the tracker's numeric values (lat, lon, distance)
+    pub vals: Option<(f64, f64, f64)>,
+}
+
+/// does the text shown in a cell represent `val` at the precision it is shown with?
+/// (the statement does not fix the number of decimals; a wrong value or a value where none
+/// should be shown is a mismatch)
+pub fn num_shown_matches(shown: &str, val: Option<f64>) -> bool {
+    match val {
+        None => shown.is_empty(),
+        Some(v) => {
+            let Ok(x) = shown.parse::<f64>() else { return false };
+            let decimals = shown.split('.').nth(1).map(str::len).unwrap_or(0) as i32;
+            (x - v).abs() <= 0.5 * 10f64.powi(-decimals) * (1.0 + 1e-9) + 1e-12
+        }
+    }
+}
+
+pub fn row_matches(shown: &Row, reference: &Row) -> bool {
+    shown.icao == reference.icao
+        && shown.callsign == reference.callsign
+        && shown.alt == reference.alt
+        && shown.msgs == reference.msgs
+        && num_shown_matches(&shown.lat, reference.vals.map(|v| v.0))
+        && num_shown_matches(&shown.lon, reference.vals.map(|v| v.1))
+        && num_shown_matches(&shown.dist, reference.vals.map(|v| v.2))
+}
+
+pub fn tables_match(shown: &[Row], reference: &[Row]) -> bool {
+    shown.len() == reference.len() && shown.iter().zip(reference.iter()).all(|(a, b)| row_matches(a, b))
 }
 
 pub fn table_of(a: &Airplanes) -> Vec<Row> {
@@ -411,11 +441,11 @@ pub fn table_of(a: &Airplanes) -> Vec<Row> {
     for k in a.keys() {
         let st = a.get(*k).unwrap();
         let d = a.aircraft_details(*k);
-        let (lat, lon, alt, dist) = match d {
-            Some(d) => (format!("{:.3}", d.position.latitude), format!("{:.3}", d.position.longitude), d.altitude.to_string(), format!("{:.3}", d.kilo_distance)),
-            None => (String::new(), String::new(), String::new(), String::new()),
+        let (lat, lon, alt, dist, vals) = match d {
+            Some(d) => (format!("{:.3}", d.position.latitude), format!("{:.3}", d.position.longitude), d.altitude.to_string(), format!("{:.3}", d.kilo_distance), Some((d.position.latitude, d.position.longitude, d.kilo_distance))),
+            None => (String::new(), String::new(), String::new(), String::new(), None),
         };
-        v.push(Row { icao: format!("{k}"), callsign: st.callsign.clone().unwrap_or_default(), lat, lon, alt, dist, msgs: st.num_messages.to_string() });
+        v.push(Row { icao: format!("{k}"), callsign: st.callsign.clone().unwrap_or_default(), lat, lon, alt, dist, msgs: st.num_messages.to_string(), vals });
     }
     v
 }
@@ -506,7 +536,7 @@ pub fn parse_airplanes_tab(s: &Screen) -> Option<(Vec<Row>, Vec<Vec<String>>, bo
             break;
         }
         let cells: Vec<String> = COLS.iter().map(|(a, b)| cell(*a, *b)).collect();
-        rows.push(Row { icao: cells[0].clone(), callsign: cells[1].clone(), lat: cells[2].clone(), lon: cells[3].clone(), alt: cells[5].clone(), dist: cells[8].clone(), msgs: cells[9].clone() });
+        rows.push(Row { icao: cells[0].clone(), callsign: cells[1].clone(), lat: cells[2].clone(), lon: cells[3].clone(), alt: cells[5].clone(), dist: cells[8].clone(), msgs: cells[9].clone(), vals: None });
         raw.push(cells);
     }
     Some((rows, raw, any_selected))
@@ -726,7 +756,7 @@ fn check_radar(sc: &K16, p: &Parsed, reference: &[RefLine], disconnect_exit: boo
                     out.violate("C16:more-frames-counted-than-lines-delivered", format!("frame {} (t={}us): the table shows {j} processed frames but only {c_k} complete well-formed lines had been delivered by then (a line was processed twice or a fragment was taken for a line)\n{}", s.k, s.vt_us, dump_rows(&rows)));
                     return;
                 }
-                if j > m || rows != tables[j] {
+                if j > m || !tables_match(&rows, &tables[j]) {
                     out.violate(
                         "C16:table-is-not-a-prefix-of-the-feed",
                         format!("frame {} (t={}us): the table shows {j} processed frames, but it is not the state after the first {j} well-formed lines of the feed (lines lost, reordered or duplicated)\nshown:\n{}\nexpected:\n{}", s.k, s.vt_us, dump_rows(&rows), dump_rows(tables.get(j).map(Vec::as_slice).unwrap_or(&[]))),
